@@ -5,6 +5,7 @@
 #   calls for incremental builds; remove with: git -C /repo worktree remove --force /tmp/seedverify).
 set -u
 W=/tmp/seedverify
+DIRS=(); for a in "$@"; do DIRS+=("$(realpath "$a")"); done
 EXPECTED="test bitmap::cbdt::tests::test_lookup_cblc ... FAILED
 test font::tests::test_glyph_names ... FAILED
 test tables::cmap::tests::test_mappings_format0 ... FAILED
@@ -17,13 +18,13 @@ test test_shape_emoji_sequence ... FAILED
 test test_shape_emoji_zwj_sequence ... FAILED"
 if [ ! -d $W ]; then git -C /repo worktree add --detach $W HEAD -q || exit 2; fi
 git -C $W checkout -q --detach $(git -C /repo rev-parse HEAD); git -C $W checkout -q -- . ; rm -f $W/tests/seeded_demo.rs
-for D in "$@"; do
-  D=$(realpath "$D"); name=$(basename "$D")
+for D in "${DIRS[@]}"; do
+  name=$(basename "$D")
   cd $W; git checkout -q -- . ; rm -f tests/seeded_demo.rs
   if ! git apply --check "$D/patch.diff" 2>/dev/null; then echo "$name: PATCH DOES NOT APPLY"; echo '{"applies": false}' > "$D/verify.json"; continue; fi
   git apply "$D/patch.diff"; cp "$D/demo.rs" tests/seeded_demo.rs
   out=$(cargo test --workspace --no-fail-fast --offline 2>&1)
-  demo_with=$(echo "$out" | grep -E "^test " | grep -v -F "$EXPECTED" | grep FAILED | sort -u)
+  demo_with=$(echo "$out" | grep -E "^test .* \.\.\. FAILED" | grep -v -F "$EXPECTED" | sort -u)
   # failures outside the demo test binary: run the suite list minus demo
   cargo test --offline --test seeded_demo > /tmp/seedverify_demo.log 2>&1; rc_with=$?
   demo_tests_failed=$(grep -E "^test .* FAILED" /tmp/seedverify_demo.log | sort -u)
